@@ -94,7 +94,11 @@ def explore(cfg, rep, identity_mode, on_frame):
         if v is None:
             v = z3.Real(f"s_{f.animal}_{f.frame}_{g.animal}_{g.frame}")
             SC[key] = v
-        if identity_mode:
+        if identity_mode and cfg.get("score_range") == "neg":
+            # scoring functions whose best value is 0 (negative distance): the same animal scores in [-0.4, 0] -- incl. exactly 0, an animal that did
+            # not move -- and different animals below -0.6
+            c = [v >= Fraction(-4, 10), v <= 0] if f.animal == g.animal else [v >= -100, v < Fraction(-6, 10)]
+        elif identity_mode:
             c = [v > Fraction(6, 10), v <= 1] if f.animal == g.animal else [v >= 0, v < Fraction(4, 10)]
         else:
             c = [v >= 0, v <= 1] if cfg.get("score_range", "unit") == "unit" else [v <= 0]
